@@ -105,6 +105,12 @@ func genScenario(t *rapid.T) scenario {
 		for i := 0; i < n; i++ {
 			add(gen.Type().Draw(t, "type"), gen.Key().Draw(t, "key"))
 		}
+		if rapid.IntRange(0, 19).Draw(t, "manyIdentities") == 0 {
+			// an array-like point set: many keys of one type (large batches)
+			for i := rapid.IntRange(40, 300).Draw(t, "nkeys"); i > 0; i-- {
+				add("arr", fmt.Sprint(i))
+			}
+		}
 		for _, id := range idents {
 			k := rapid.IntRange(1, 5).Draw(t, "npoints")
 			times := gen.DistinctTimes(t, k, "time")
@@ -136,6 +142,9 @@ func genDelivery(t *rapid.T, sc scenario, label string) []batch {
 			continue
 		}
 		size := rapid.IntRange(1, 8).Draw(t, label+"batch")
+		if len(list) > 60 && rapid.Bool().Draw(t, label+"bigBatch") {
+			size = rapid.IntRange(50, 400).Draw(t, label+"bigBatchSize")
+		}
 		b := batch{T: list[i].T}
 		for j := i; j < len(list) && len(b.Pts) < size; j++ {
 			if !used[j] && list[j].T == b.T {
@@ -322,6 +331,9 @@ func TestPropNewestWins(t *testing.T) {
 		}
 		if hasEdge {
 			cls = append(cls, "edgeTarget")
+		}
+		if len(sc.points) > 60 {
+			cls = append(cls, "batch>=50points")
 		}
 		nt := (rs.stale && rs.dupInBatch) || (rs2.stale && rs2.dupInBatch)
 		stats.Case(nt, stats.Digest(fmt.Sprint(sc.targets), len(sc.points), fmt.Sprint(d1)), cls...)
